@@ -24,6 +24,8 @@
 
 #include <cstddef>
 #include <iosfwd>
+#include <istream>
+#include <limits>
 #include <vector>
 
 namespace hep
@@ -62,6 +64,8 @@ public:
 
         for (std::size_t i = 0; i != size; ++i)
         {
+            // consume the newline character that `serialize` writes in front of every distribution
+            in.ignore(std::numeric_limits<std::streamsize>::max(), '\n');
             distributions_.emplace_back(in);
         }
     }
